@@ -166,15 +166,18 @@ UdpCsum(b, s)     == U16(b, s + 6)
 (***************************************************************************)
 Fails(name, ok) == IF ok THEN {} ELSE {name}
 
+(* header length of a reply, in 32-bit words (5 when the field is unusable) *)
+RIhl(r) == IF Len(r) >= 15 /\ Ip4Ihl(r) >= 5 /\ 14 + Ip4Ihl(r) * 4 <= Len(r) THEN Ip4Ihl(r) ELSE 5
+
 WFIp4(r) ==
     IF Len(r) < 34 THEN {"ip4-short"}
     ELSE
       Fails("ip4-version", Ip4Ver(r) = 4)
-      \cup Fails("ip4-ihl", Ip4Ihl(r) = 5)
+      \cup Fails("ip4-ihl", Ip4Ihl(r) >= 5 /\ 14 + Ip4Ihl(r) * 4 <= Len(r))   \* IHL matches a header that is there
       \cup Fails("ip4-total-length", Ip4TotLen(r) = Len(r) - 14)
       \cup Fails("ip4-fragmented", (Ip4FlagsFrag(r) % 16384) = 0)    \* MF = 0, offset = 0
       \cup Fails("ip4-ttl", Ip4Ttl(r) >= 1)
-      \cup Fails("ip4-header-checksum", CsumOK(r, 14, 34, 0))
+      \cup Fails("ip4-header-checksum", CsumOK(r, 14, 14 + RIhl(r) * 4, 0))
 
 WFIp6(r) ==
     IF Len(r) < 54 THEN {"ip6-short"}
@@ -184,15 +187,19 @@ WFIp6(r) ==
       \cup Fails("ip6-hop-limit", Ip6Hlim(r) >= 1)
 
 (* L4 region of a reply and its pseudo-header sum *)
-L4Start(r) == IF EthType(r) = ETH_IP4 THEN 34 ELSE 54
+L4Start(r) == IF EthType(r) = ETH_IP4 THEN 14 + RIhl(r) * 4 ELSE 54
 PseudoOf(r, proto) ==
     IF EthType(r) = ETH_IP4
-    THEN Pseudo4(Ip4Src(r), Ip4Dst(r), proto, Len(r) - 34)
+    THEN Pseudo4(Ip4Src(r), Ip4Dst(r), proto, Len(r) - L4Start(r))
     ELSE Pseudo6(Ip6Src(r), Ip6Dst(r), proto, Len(r) - 54)
+(* where the data of a TCP reply begins (data offset 5 when the field is unusable) *)
+RDoff(r) == LET s == L4Start(r) IN
+            IF Len(r) >= s + 20 /\ TcpDoff(r, s) >= 5 /\ s + TcpDoff(r, s) * 4 <= Len(r) THEN TcpDoff(r, s) ELSE 5
+TcpDataStartR(r) == L4Start(r) + RDoff(r) * 4
 
 WFIcmp4(r) ==
-    IF Len(r) < 34 + 4 THEN {"icmp-short"}
-    ELSE Fails("icmp-checksum", CsumOK(r, 34, Len(r), 0))
+    IF Len(r) < L4Start(r) + 4 THEN {"icmp-short"}
+    ELSE Fails("icmp-checksum", CsumOK(r, L4Start(r), Len(r), 0))
 
 WFIcmp6(r) ==
     IF Len(r) < 54 + 4 THEN {"icmp6-short"}
@@ -204,7 +211,7 @@ WFTcp(r) ==
     LET s == L4Start(r) IN
     IF Len(r) < s + 20 THEN {"tcp-short"}
     ELSE Fails("tcp-checksum", CsumOK(r, s, Len(r), PseudoOf(r, PROTO_TCP)))
-         \cup Fails("tcp-data-offset", TcpDoff(r, s) = 5)
+         \cup Fails("tcp-data-offset", TcpDoff(r, s) >= 5 /\ s + TcpDoff(r, s) * 4 <= Len(r))   \* matches a header that is there
          \cup (IF HasFlag(TcpFlags(r, s), F_SYN) /\ HasFlag(TcpFlags(r, s), F_ACK)
                THEN Fails("synack-window", TcpWindow(r, s) # 0) ELSE {})
 
